@@ -4,6 +4,7 @@ import (
 	"bytes"
 	"compress/gzip"
 	"context"
+	"errors"
 	"fmt"
 	"io"
 	"net/http"
@@ -221,11 +222,74 @@ func b2i(b bool) int {
 }
 
 // S-seg (C03): the same bytes under every segmentation give the same outcome.
+// afterOversizeProbes (oracle only): a handler may go on calling Receive after one message was
+// rejected for its size (the reader skips it precisely so that the stream stays in step). What it
+// then gets must not depend on how the transport cut the body up: requests of the form
+// [small][over the limit][small][small] through a real bidi handler, in several segmentations.
+func afterOversizeProbes(c *Ctx) {
+	for _, proto := range []string{"connect", "grpc", "grpcweb"} {
+		for _, big := range []int{33, 200, 700, 5000} {
+			flat := append(frame(0, []byte{1}), frame(0, bytes.Repeat([]byte{2}, big))...)
+			flat = append(flat, frame(0, []byte{7})...)
+			flat = append(flat, frame(0, []byte{9, 9})...)
+			run := func(cuts []int, withData bool) string {
+				var got []string
+				h := connect.NewBidiStreamHandler("/s/m", func(ctx context.Context, s *connect.BidiStream[[]byte, []byte]) error {
+					for i := 0; i < 8; i++ {
+						m, err := s.Receive()
+						switch {
+						case err == nil:
+							got = append(got, "m:"+hx(*m))
+						case errors.Is(err, io.EOF):
+							got = append(got, "eof")
+							return nil
+						default:
+							got = append(got, "e:"+connect.CodeOf(err).String())
+						}
+					}
+					return nil
+				}, connect.WithCodec(rawCodec{"raw"}), connect.WithReadMaxBytes(32))
+				return safely(func() string {
+					body := &scriptReader{chunks: segment(append([]byte(nil), flat...), cuts), tail: io.EOF, withData: withData}
+					req := httptest.NewRequest(http.MethodPost, "/s/m", body)
+					req.ProtoMajor, req.ProtoMinor, req.Proto = 2, 0, "HTTP/2.0"
+					req.Header.Set("Content-Type", map[string]string{"connect": "application/connect+raw", "grpc": "application/grpc+raw", "grpcweb": "application/grpc-web+raw"}[proto])
+					h.ServeHTTP(httptest.NewRecorder(), req)
+					return strings.Join(got, " ")
+				})
+			}
+			whole := run(nil, false)
+			desc := fmt.Sprintf("%s bidi handler, read limit 32, request [1 byte][%d bytes][1 byte][2 bytes], Receive continues after the size error", proto, big)
+			c.Count("seg:after-oversize")
+			if whole != "m:01 e:invalid_argument m:07 m:0909 eof" {
+				c.Fail("segmentation-dependent-after-oversize", desc, whole, "delivered in one piece, the handler must see: message, size error, message, message, end")
+				continue
+			}
+			var everyByte, sevens []int
+			for i := 1; i < len(flat); i++ {
+				everyByte = append(everyByte, i)
+				if i%7 == 0 {
+					sevens = append(sevens, i)
+				}
+			}
+			endOfBig := 6 + 5 + big
+			for _, cuts := range [][]int{everyByte, sevens, {endOfBig}, {endOfBig - 1}, {endOfBig + 1}, {endOfBig + 3, endOfBig + 9}, {6, endOfBig + 6}} {
+				for _, withData := range []bool{false, true} {
+					if got := run(cuts, withData); got != whole {
+						c.Fail("segmentation-dependent-after-oversize", desc+fmt.Sprintf(", cuts %v, EOF with data=%v", cuts[:min(len(cuts), 4)], withData), got, "outcome differs from one-piece delivery, which gives: "+whole)
+					}
+				}
+			}
+		}
+	}
+}
+
 func streamSeg(c *Ctx) {
 	if replayOp != "" {
 		segCheck(c, replayOp)
 		return
 	}
+	afterOversizeProbes(c)
 	r := c.Rng
 	exhaustLen := 13
 	if c.Thorough() {
